@@ -8,6 +8,7 @@ import (
 	"github.com/go-faster/city"
 	pprof_proto "github.com/google/pprof/profile"
 	"github.com/metrico/qryn/writer/model"
+	"github.com/metrico/qryn/writer/utils/helpers"
 	"io"
 	"io/ioutil"
 	"mime/multipart"
@@ -286,6 +287,21 @@ func (d *Decompressor) readBytes(r io.Reader, out *bytes.Buffer) error {
 }
 
 func Parse(data *bytes.Buffer) ([]ProfileIR, error) {
+	// pprof_proto.Parse inflates a gzip-compressed profile without any bound: inflate it here, up to the payload limit
+	if b := data.Bytes(); len(b) >= 2 && b[0] == 0x1f && b[1] == 0x8b {
+		gz, err := gzip.NewReader(data)
+		if err != nil {
+			return nil, err
+		}
+		inflated, err := io.ReadAll(helpers.LimitDecoded(gz))
+		if err != nil {
+			return nil, err
+		}
+		if len(inflated) >= 2 && inflated[0] == 0x1f && inflated[1] == 0x8b {
+			return nil, fmt.Errorf("profile is compressed twice")
+		}
+		data = bytes.NewBuffer(inflated)
+	}
 	// Parse pprof data
 	pProfData, err := pprof_proto.Parse(data)
 	if err != nil {
